@@ -422,7 +422,8 @@ def run(ctx):
         return
     vlib.check_props(ctx)
     vlib.check_props(ctx, 'theories/Props/C01b.v')
-    vlib.check_props(ctx, 'theories/Props/C01c.v')
+    import C01_overhang
+    C01_overhang.check_props_c(ctx)          # vlib.check_props(ctx, 'theories/Props/C01c.v') + module-wise coqchk in the thorough tier
     quick = ctx.quick()
     broken = False
     # (a) dispatch
@@ -481,7 +482,6 @@ def run(ctx):
         ctx.violation('correspondence', labels[idx][0], 'premises of the secant identity (A u = b, A^T db = w, dA = -db (x) u / A B = 1, dA = -B^T W B^T)', 'F3',
                       dict(label=labels[idx], coq=checks[idx][:3000]))
     # (b'') OverhangFilter: model of _sensitivity (Model/OverhangAdj.v, theorems Props/C01c.v) against the implementation
-    import C01_overhang
     C01_overhang.run_part(ctx, pym)
     # (c) F2 interval goals
     goals, glabels = f2_goals(ctx, pym, 40 if quick else 400)
